@@ -428,6 +428,28 @@ func (f *frame) execFor(s *ast.ForStmt) {
 		init, ok1 := s.Init.(*ast.AssignStmt)
 		cond, ok2 := s.Cond.(*ast.BinaryExpr)
 		post, ok3 := s.Post.(*ast.IncDecStmt)
+		// for i, n := 0, N; i < n; i++ : the bound evaluated once, up front
+		if ok1 && ok2 && ok3 && len(init.Lhs) == 2 && len(init.Rhs) == 2 && init.Tok == token.DEFINE && cond.Op == token.LSS && post.Tok == token.INC {
+			id0, okA := init.Lhs[0].(*ast.Ident)
+			id1, okB := init.Lhs[1].(*ast.Ident)
+			if okA && okB {
+				iv, nv := f.info.Defs[id0], f.info.Defs[id1]
+				cid, okC := cond.X.(*ast.Ident)
+				nid, okD := cond.Y.(*ast.Ident)
+				pid, okE := post.X.(*ast.Ident)
+				if z, ok := isConstT(f.eval(init.Rhs[0])); ok && z == 0 && iv != nil && nv != nil && okC && okD && okE &&
+					f.info.Uses[cid] == iv && f.info.Uses[nid] == nv && f.info.Uses[pid] == iv {
+					n := f.eval(init.Rhs[1])
+					f.env[nv] = n
+					f.runLoopBody("count", []*T{n}, s.Body.List, s, func() {
+						f.env[iv] = tVar(fmt.Sprintf("$i%d", depth))
+					})
+					delete(f.env, iv)
+					delete(f.env, nv)
+					return
+				}
+			}
+		}
 		if ok1 && ok2 && ok3 && len(init.Lhs) == 1 && init.Tok == token.DEFINE && cond.Op == token.LSS && post.Tok == token.INC {
 			iv := f.info.Defs[init.Lhs[0].(*ast.Ident)]
 			if z, ok := isConstT(f.eval(init.Rhs[0])); ok && z == 0 {
